@@ -95,7 +95,7 @@ Definition check_dataframe (py_isdigit : Z -> bool) (o : dopts) (df ref : frame)
   let wrong_types := filter (fun c => match lookup df c, lookup ref c with
                                       | Some a, Some r => negb (types_match py_isdigit (d_level o) (eff_dtype a) (eff_dtype r))
                                       | _, _ => false end) check_types in
-  let extra := filter (fun c => negb (has ref c)) (dedup_strs check_extra) in
+  let extra := filter (fun c => has df c && negb (has ref c)) (dedup_strs check_extra) in
   let wrong_order :=
     match d_order o with
     | FNone => false
